@@ -480,6 +480,8 @@ def r07_8(ctx: Ctx) -> None:
 
 
 def run(ctx: Ctx) -> None:
+    from . import c15
+    c15.r15_1(ctx, rule="R07.9")  # a member registered in the header lists without a stream makes file and substream counts disagree
     r07_8(ctx)
     from . import c01
     c01.r01_2(ctx)
